@@ -343,3 +343,119 @@ Proof.
   destruct (ls_partial t ops) as (_ & [Hn _] & Hl & _).
   unfold outs. cbn. unfold ls_size. now rewrite Hn, Hl.
 Qed.
+
+(* ---- history-level corollaries for the linked stack ---- *)
+
+(* the state reached by a history, seen through the three machines *)
+Lemma ls_reach t ops :
+  exists g,
+    ls_abs (state_after ls_step (ls_new t) ops) (state_after lifo_step [t] ops, g) /\
+    (g = None \/ g = Some t) /\
+    (state_after lifo_step [t] ops = [] -> g = Some t).
+Proof.
+  destruct (ls_partial t ops) as (_ & Habs & Hl & Hinv).
+  destruct (state_after lsd_step ([t], None) ops) as [l g] eqn:E. cbn [fst snd] in *. subst l.
+  exists g. split; [exact Habs|]. unfold lsd_inv in Hinv. cbn [fst snd] in Hinv.
+  destruct Hinv as [[-> (l0 & Hl0)]| ->].
+  - split; [now left|]. intros Hnil. rewrite Hnil in Hl0. destruct l0; discriminate.
+  - split; [now right|]. reflexivity.
+Qed.
+
+Lemma ls_outs_from t ops ops' g :
+  ls_abs (state_after ls_step (ls_new t) ops) (state_after lifo_step [t] ops, g) ->
+  outs ls_step (ls_new t) (ops ++ ops') =
+  outs ls_step (ls_new t) ops ++ outs lsd_step (state_after lifo_step [t] ops, g) ops'.
+Proof.
+  intros Habs. rewrite outs_app. f_equal. exact (proj2 (ls_run_lsd _ _ ops' Habs)).
+Qed.
+
+(* Pops executed while Size() was not 0 — the "successful" ones *)
+Fixpoint ls_pops (s : ls) (ops : list sop) : nat :=
+  match ops with
+  | [] => O
+  | o :: ops' =>
+      ((match o with Pop => if (ls_size s =? 0)%Z then 0 else 1 | _ => 0 end) +
+       ls_pops (fst (ls_step s o)) ops')%nat
+  end.
+
+Lemma ls_size_counts_gen ops : forall s d, ls_abs s d ->
+  (length (fst (state_after lsd_step d ops)) + ls_pops s ops = length (fst d) + pushed ops)%nat.
+Proof.
+  induction ops as [|o ops IH]; intros s d Habs; [cbn; lia|].
+  rewrite state_after_cons. cbn [ls_pops].
+  destruct (ls_step_lsd s d o Habs) as [Habs' _].
+  specialize (IH _ _ Habs').
+  destruct d as [l g]. destruct Habs as [Hn _]. cbn [fst] in Hn.
+  pose proof (proj1 (lsd_vs_lifo l g o)) as Hc.
+  assert (Hstep : (length (fst (fst (lsd_step (l, g) o))) +
+                   match o with Pop => if (ls_size s =? 0)%Z then 0 else 1 | _ => 0 end =
+                   length l + match o with Push _ => 1 | _ => 0 end)%nat).
+  { rewrite Hc. unfold ls_size. rewrite Hn.
+    destruct o; cbn [lifo_step fst]; try (cbn [length]; lia).
+    destruct l as [|y l]; cbn [length fst]; [reflexivity|].
+    replace (Z.of_nat (S (length l)) =? 0) with false by (symmetry; apply Z.eqb_neq; lia). lia. }
+  cbn [fst]. unfold pushed in *. cbn [filter]. destruct o; cbn [length] in *; lia.
+Qed.
+
+(* Size = 1 (the mandatory first element) + pushes - successful pops *)
+Lemma ls_size_counts t ops :
+  outs ls_step (ls_new t) (ops ++ [SSize]) =
+  outs ls_step (ls_new t) ops ++ [SInt (1 + Z.of_nat (pushed ops) - Z.of_nat (ls_pops (ls_new t) ops))].
+Proof.
+  rewrite ls_size_lifo. f_equal. f_equal. f_equal.
+  pose proof (ls_size_counts_gen ops _ _ (ls_new_abs t)) as H.
+  rewrite (lsd_state_lifo ops ([t], None)) in H. cbn [fst length] in H. lia.
+Qed.
+
+(* the counter field itself is never negative *)
+Lemma ls_counter_nonneg t ops : 0 <= ls_size (state_after ls_step (ls_new t) ops).
+Proof.
+  destruct (ls_partial t ops) as (_ & [Hn _] & _). unfold ls_size. rewrite Hn. lia.
+Qed.
+
+(* Pop on a stack holding at least two elements: removes the top a, answers b *)
+Lemma ls_pop_below t ops a b rest :
+  state_after lifo_step [t] ops = a :: b :: rest ->
+  outs ls_step (ls_new t) (ops ++ [Pop]) = outs ls_step (ls_new t) ops ++ [SVal b] /\
+  state_after lifo_step [t] (ops ++ [Pop]) = b :: rest.
+Proof.
+  intros Hl. destruct (ls_reach t ops) as (g & Habs & _ & _).
+  rewrite (ls_outs_from t ops [Pop] g Habs), state_after_app, Hl. split; reflexivity.
+Qed.
+
+(* Peek on a non-empty stack is the LIFO's *)
+Lemma ls_peek_nonempty t ops :
+  state_after lifo_step [t] ops <> [] ->
+  outs ls_step (ls_new t) (ops ++ [SPeek]) =
+  outs ls_step (ls_new t) ops ++ [SVal (hd 0 (state_after lifo_step [t] ops))].
+Proof.
+  intros Hne. destruct (ls_reach t ops) as (g & Habs & _ & _).
+  rewrite (ls_outs_from t ops [SPeek] g Habs). f_equal.
+  destruct (state_after lifo_step [t] ops); [congruence|reflexivity].
+Qed.
+
+(* Search x for any x other than the first element t is the LIFO's *)
+Lemma ls_search_not_first t ops x : x <> t ->
+  outs ls_step (ls_new t) (ops ++ [SSearch x]) =
+  outs ls_step (ls_new t) ops ++ [SBool (existsb (Z.eqb x) (state_after lifo_step [t] ops))].
+Proof.
+  intros Hx. destruct (ls_reach t ops) as (g & Habs & Hg & _).
+  rewrite (ls_outs_from t ops [SSearch x] g Habs). f_equal.
+  pose proof (proj2 (lsd_vs_lifo (state_after lifo_step [t] ops) g (SSearch x))) as H.
+  cbn beta iota in H. unfold outs. cbn [run snd].
+  destruct (lsd_step (state_after lifo_step [t] ops, g) (SSearch x)) as [d r] eqn:E.
+  cbn [snd] in *. rewrite H; [reflexivity|]. destruct Hg as [-> | ->]; congruence.
+Qed.
+
+(* every history that leaves the linked stack logically EMPTY leaves it with the
+   ghost of its first element t: Size 0, yet Peek answers t and Search t is true;
+   Pop answers the zero value and nothing changes (the same answers again) *)
+Lemma ls_emptied_ghost t ops :
+  state_after lifo_step [t] ops = [] ->
+  outs ls_step (ls_new t) (ops ++ [SSize; SPeek; SSearch t; Pop; SSize; SPeek; SSearch t]) =
+  outs ls_step (ls_new t) ops ++ [SInt 0; SVal t; SBool true; SVal 0; SInt 0; SVal t; SBool true].
+Proof.
+  intros Hl. destruct (ls_reach t ops) as (g & Habs & _ & Hg).
+  rewrite (ls_outs_from t ops _ g Habs). f_equal. rewrite Hl, (Hg Hl).
+  unfold outs. cbn. rewrite Z.eqb_refl. reflexivity.
+Qed.
